@@ -19,6 +19,7 @@ import guardcases as gc
 import lib
 import proto
 import real
+from rbacx.core.engine import Guard
 from rbacx.dsl.validate import validate_policy
 
 DOCUMENTED = {"matched", "explicit_deny", "condition_mismatch", "condition_type_mismatch", "resource_mismatch", "action_mismatch",
@@ -379,6 +380,71 @@ def run_cases(run: lib.Run, audit: dict, scale: int = 1, extras: bool = True):
             run.disagreements.append(case)
 
 
+def overlapping_calls(run: lib.Run) -> None:
+    """evaluations that OVERLAP on one engine (a second thread calls while the first is still inside its role resolver / relationship
+    lookup; a sync call from inside a running loop while another is in flight): each returns a well-formed decision, none raises"""
+    import asyncio
+    import threading
+    pol = {"algorithm": "deny-overrides", "rules": [{"id": "r", "effect": "permit", "actions": ["read"], "resource": {"type": "doc"},
+                                                      "condition": {"hasAny": [{"attr": "subject.roles"}, ["admin"]]}}]}
+    s1, a1, r1, c1 = real.make_request({"sid": "slow", "roles": ["admin"], "sattrs": {}, "action": "read", "rtype": "doc", "rid": "1", "rattrs": {}, "ctx": {}})
+    s2, a2, r2, c2 = real.make_request({"sid": "fast", "roles": [], "sattrs": {}, "action": "read", "rtype": "doc", "rid": "2", "rattrs": {}, "ctx": {}})
+    for kind in ("sync resolver", "async resolver"):
+        for second in ("evaluate_sync", "evaluate_sync inside a running loop", "evaluate_async"):
+            gate, entered = threading.Event(), threading.Event()
+
+            class SyncRes:
+                def expand(self, roles):
+                    if "admin" in roles and not gate.is_set():
+                        entered.set()
+                        gate.wait(10)
+                    return list(roles)
+
+            class AsyncRes:
+                async def expand(self, roles):
+                    if "admin" in roles and not gate.is_set():
+                        entered.set()
+                        while not gate.is_set():
+                            await asyncio.sleep(0.005)
+                    return list(roles)
+            g = Guard(copy.deepcopy(pol), role_resolver=(SyncRes if kind == "sync resolver" else AsyncRes)())
+            box: dict = {}
+
+            def first():
+                try:
+                    box["first"] = g.evaluate_sync(s1, a1, r1, c1)
+                except Exception as e:  # noqa: BLE001
+                    box["first"] = e
+            t = threading.Thread(target=first, daemon=True)
+            t.start()
+            got = None
+            try:
+                if entered.wait(10):
+                    if second == "evaluate_sync":
+                        got = g.evaluate_sync(s2, a2, r2, c2)
+                    elif second == "evaluate_async":
+                        got = asyncio.run(g.evaluate_async(s2, a2, r2, c2))
+                    else:
+                        async def outer():
+                            return g.evaluate_sync(s2, a2, r2, c2)
+                        got = asyncio.run(outer())
+                else:
+                    got = TimeoutError("the first evaluation never reached its resolver")
+            except Exception as e:  # noqa: BLE001
+                got = e
+            finally:
+                gate.set()
+                t.join(10)
+            run.evaluations += 1
+            run.count("overlapping-calls")
+            for who, d, want in (("first (held in its resolver)", box.get("first"), True), ("second", got, False)):
+                if isinstance(d, Exception) or d is None or d.allowed is not want or d.effect not in ("permit", "deny"):
+                    run.spec_failures.append({"part": "overlapping calls", "resolver": kind, "second_call": second, "which": who, "policy": pol,
+                                              "observed": f"{type(d).__name__}: {d}" if isinstance(d, Exception) or d is None else [d.allowed, d.effect, d.reason],
+                                              "spec": "an evaluation overlapping another one on the same engine raised / did not return its well-formed decision"})
+                    return
+
+
 def check(run: lib.Run, audit: dict) -> int:
     run.rule = ("grid: 14 binary operators + between × ~90 hostile values (non-finite/huge/out-of-range numbers, odd and calendar-edge ISO "
                 "strings with offsets, nulls, containers) as left / right / both attribute operands and as policy literal, lax and strict; "
@@ -392,6 +458,7 @@ def check(run: lib.Run, audit: dict) -> int:
     if not audit["ok"]:
         raise lib.CheckError(f"Lean build/audit failed at {audit['stage']}: {audit.get('log') or audit.get('forbidden') or audit.get('bad_axioms')}")
     run_cases(run, audit, scale=run.boost)
+    overlapping_calls(run)
     violations = []
     if run.disagreements and not run.spec_failures:
         run_cases(run, audit, scale=4, extras=False)
